@@ -195,7 +195,7 @@ class CylindricalSandwich(ExactSolver):
             return x * Tnm
 
         # specific nonhomogeneous contribution \bar T(x,y)
-        tempnonhom = self.T0 + 2 * self.T1 * theta / np.pi
+        tempnonhom = self.T0 + 2 * (self.T1 - self.T0) * theta / np.pi
         # general homogeneous contribution \tilde T(x, y, t)
         temperature = 0
         if self.NonHomogeneousOnly == False:
@@ -212,7 +212,7 @@ class CylindricalSandwich(ExactSolver):
                     Anm = (1./2.) * (self.b**2 - k**2/alphanm**2) * Rnmb**2 - \
                       (1./2.) * (self.a**2 - k**2/alphanm**2) * Rnma**2
                     # Anm = CylindricalSandwich.Anm_analytic(self, self.a, self.b, k, m, alphanm, betanm)
-                    Tnm = (4 * self.T1 / np.pi) * ((-1)**(k/2) / float(k)) * (1 / Anm) * \
+                    Tnm = (4 / np.pi) * ((self.T1 * (-1)**(k/2) - self.T0) / float(k)) * (1 / Anm) * \
                         quad(dTinRun, self.a, self.b, args=(k, m, alphanm, betanm))[0]
                     tmp = Tnm * Rnm * np.sin(k * theta) * np.exp(-self.kappa * alphanm**2 * t)  # combine Tnm and tmp
                     temperature += tmp  # this line is throwing a waring during the unit test
